@@ -34,7 +34,11 @@ type c11Ref struct {
 	tbl           map[string]string
 	fn            string // "" = the table alone; otherwise the total lookup function c11FnValue(tbl, fn, ·)
 	steps, budget int
+	deep          int // the longest expansion path (placeholders open at the same time) met so far
 }
+
+// c11RefLastDepth: the longest expansion path of the latest run of the reference (evidence only).
+var c11RefLastDepth int
 
 // matchEnd returns the offset of the suffix closing a placeholder whose body starts at from.
 func (r *c11Ref) matchEnd(s string, from int) int {
@@ -104,6 +108,9 @@ func (r *c11Ref) eval(s string, stack []string) string {
 			}
 		}
 		st := append(append([]string{}, stack...), seg.body)
+		if len(st) > r.deep {
+			r.deep = len(st)
+		}
 		key := r.eval(seg.body, st)
 		val, ok := r.lookup(key)
 		if !ok {
@@ -131,6 +138,7 @@ func c11RefResolve(d [3]string, tbl map[string]string, s string, budget int) (ou
 func c11RefResolveFn(d [3]string, tbl map[string]string, fn string, s string, budget int) (out c11Out) {
 	r := &c11Ref{pre: d[0], suf: d[1], sep: d[2], tbl: tbl, fn: fn, budget: budget}
 	defer func() {
+		c11RefLastDepth = r.deep
 		if x := recover(); x != nil {
 			switch e := x.(type) {
 			case c11RefCycle:
